@@ -25,6 +25,7 @@ func VerifR1Converge2() {
 	vSkew(a, "skewA")
 	vSkew(b, "skewB")
 	nops := 1 + zzvsym.Tier()
+	vSmallAlphabet = nops > 1 // two edits per replica: reduced index alphabet
 	for round := 0; round < nops; round++ {
 		vEdit(a, vName("a", round), typ, 10+round)
 		if zzvsym.IntRange(vName("syncA", round), 0, 1) == 1 {
